@@ -66,6 +66,8 @@ pub enum Op {
     Store,
     Rmw,
     LockAcquire,
+    /// a non-blocking acquisition attempt
+    TryLock,
     /// announced while the lock is held, right after it was taken (so that other threads can be
     /// scheduled inside the critical section)
     LockHeld,
@@ -224,20 +226,161 @@ impl From<usize> for AtomicUsize {
     }
 }
 
-/// Announces `LockAcquire` when entered (before the real lock is taken) and `LockRelease` when
-/// dropped (after the real lock has been released, if declared before the guard).
-pub struct LockScope(usize);
+/// Drop-in replacement for `std::sync::Mutex` that announces acquisition attempts, the moment the
+/// lock is held (so that other threads can be scheduled inside the critical section) and the
+/// release. Because the *type* is replaced, code that starts using `try_lock` is instrumented too.
+#[cfg(feature = "std")]
+pub struct StdMutex<T>(std::sync::Mutex<T>);
 
-impl LockScope {
-    pub fn enter(addr: usize) -> Self {
+#[cfg(feature = "std")]
+pub struct StdMutexGuard<'a, T> {
+    guard: Option<std::sync::MutexGuard<'a, T>>,
+    addr: usize,
+}
+
+#[cfg(feature = "std")]
+impl<T> StdMutex<T> {
+    pub fn new(value: T) -> Self {
+        Self(std::sync::Mutex::new(value))
+    }
+
+    fn addr(&self) -> usize {
+        self as *const Self as usize
+    }
+
+    pub fn lock(&self) -> std::sync::LockResult<StdMutexGuard<'_, T>> {
+        let addr = self.addr();
         yield_point(Op::LockAcquire, addr);
-        Self(addr)
+        let result = match self.0.lock() {
+            Ok(guard) => Ok(StdMutexGuard {
+                guard: Some(guard),
+                addr,
+            }),
+            Err(poison) => Err(std::sync::PoisonError::new(StdMutexGuard {
+                guard: Some(poison.into_inner()),
+                addr,
+            })),
+        };
+        yield_point(Op::LockHeld, addr);
+        result
+    }
+
+    pub fn try_lock(&self) -> std::sync::TryLockResult<StdMutexGuard<'_, T>> {
+        let addr = self.addr();
+        yield_point(Op::TryLock, addr);
+        match self.0.try_lock() {
+            Ok(guard) => {
+                yield_point(Op::LockHeld, addr);
+                Ok(StdMutexGuard {
+                    guard: Some(guard),
+                    addr,
+                })
+            }
+            Err(std::sync::TryLockError::Poisoned(poison)) => {
+                yield_point(Op::LockHeld, addr);
+                Err(std::sync::TryLockError::Poisoned(std::sync::PoisonError::new(
+                    StdMutexGuard {
+                        guard: Some(poison.into_inner()),
+                        addr,
+                    },
+                )))
+            }
+            Err(std::sync::TryLockError::WouldBlock) => Err(std::sync::TryLockError::WouldBlock),
+        }
+    }
+
+    pub fn is_poisoned(&self) -> bool {
+        self.0.is_poisoned()
     }
 }
 
-impl Drop for LockScope {
+#[cfg(feature = "std")]
+impl<T> core::ops::Deref for StdMutexGuard<'_, T> {
+    type Target = T;
+    fn deref(&self) -> &T {
+        self.guard.as_ref().unwrap()
+    }
+}
+
+#[cfg(feature = "std")]
+impl<T> core::ops::DerefMut for StdMutexGuard<'_, T> {
+    fn deref_mut(&mut self) -> &mut T {
+        self.guard.as_mut().unwrap()
+    }
+}
+
+#[cfg(feature = "std")]
+impl<T> Drop for StdMutexGuard<'_, T> {
     fn drop(&mut self) {
-        yield_point(Op::LockRelease, self.0);
+        // release the real lock first, then announce it
+        drop(self.guard.take());
+        yield_point(Op::LockRelease, self.addr);
+    }
+}
+
+/// The same for `spin::Mutex`.
+#[cfg(all(feature = "spin-lock", not(feature = "std")))]
+pub struct SpinMutex<T>(spin::Mutex<T>);
+
+#[cfg(all(feature = "spin-lock", not(feature = "std")))]
+pub struct SpinMutexGuard<'a, T> {
+    guard: Option<spin::MutexGuard<'a, T>>,
+    addr: usize,
+}
+
+#[cfg(all(feature = "spin-lock", not(feature = "std")))]
+impl<T> SpinMutex<T> {
+    pub fn new(value: T) -> Self {
+        Self(spin::Mutex::new(value))
+    }
+
+    fn addr(&self) -> usize {
+        self as *const Self as usize
+    }
+
+    pub fn lock(&self) -> SpinMutexGuard<'_, T> {
+        let addr = self.addr();
+        yield_point(Op::LockAcquire, addr);
+        let guard = self.0.lock();
+        yield_point(Op::LockHeld, addr);
+        SpinMutexGuard {
+            guard: Some(guard),
+            addr,
+        }
+    }
+
+    pub fn try_lock(&self) -> Option<SpinMutexGuard<'_, T>> {
+        let addr = self.addr();
+        yield_point(Op::TryLock, addr);
+        let guard = self.0.try_lock()?;
+        yield_point(Op::LockHeld, addr);
+        Some(SpinMutexGuard {
+            guard: Some(guard),
+            addr,
+        })
+    }
+}
+
+#[cfg(all(feature = "spin-lock", not(feature = "std")))]
+impl<T> core::ops::Deref for SpinMutexGuard<'_, T> {
+    type Target = T;
+    fn deref(&self) -> &T {
+        self.guard.as_ref().unwrap()
+    }
+}
+
+#[cfg(all(feature = "spin-lock", not(feature = "std")))]
+impl<T> core::ops::DerefMut for SpinMutexGuard<'_, T> {
+    fn deref_mut(&mut self) -> &mut T {
+        self.guard.as_mut().unwrap()
+    }
+}
+
+#[cfg(all(feature = "spin-lock", not(feature = "std")))]
+impl<T> Drop for SpinMutexGuard<'_, T> {
+    fn drop(&mut self) {
+        drop(self.guard.take());
+        yield_point(Op::LockRelease, self.addr);
     }
 }
 
